@@ -20,7 +20,7 @@ func init() {
 		Technique: "storage-layout analysis (key families of every Put/Delete/Find from canonical key terms): who-may-delete, writer/remover agreement, paired indices; must-facts for tombstone/existence guards; notification/effect equivalence at exits",
 		Explanation: "D1 the registry key is 'x'‖sha256(blob) and the stored value contains that blob; D2 the put path is reachable only with the tombstone 'd'‖id read as absent, delete writes 'd'‖id and no method (incl. the migration, shown by key-length facts) deletes family 'd'; " +
 			"D3 every family keyed by the container id that a put path can populate (x, o, eACL, nnsHasAlias, m) is deleted by Delete with the same id term on every effectful path (the alias: or was read empty), and the NNS deleteRecords call is made whenever the alias was non-empty; D4 the owner component of the 'o' key is produced by the same function of the blob at put time (submitted blob) and at delete/owner time (stored blob), 'x' and 'o' are written and deleted together; " +
-			"D5 Get, Owner, Alias, EACL, SetEACL, PutContainerSize reach a normal exit only with 'container exists' established; D6 PutSuccess/DeleteSuccess/SetEACLSuccess are emitted at one site each, outside loops, exactly on the paths that perform the state change, first argument = the container id, no other emitter. M: delete removes exactly when the owner lookup found an owner; list/containersOf scan the owner's ids for a non-empty owner and all ids for an empty one; the meta flag is written exactly when metaOnChain is set; loaders of the blob and the eACL. R6: the id-keyed families are deleted only from Delete (registry and owner index also by the layout migration). R8: arguments of a contract.Call that resolves to a method of this repository stand at the position of the parameter their name is meant for (defaultExpire/defaultTTL). R10: every normal return of SetEACL has stored the submission and announced it.",
+			"D5 Get, Owner, Alias, EACL, SetEACL, PutContainerSize reach a normal exit only with 'container exists' established; D6 PutSuccess/DeleteSuccess/SetEACLSuccess are emitted at one site each, outside loops, exactly on the paths that perform the state change, first argument = the container id, no other emitter. M: delete removes exactly when the owner lookup found an owner; list/containersOf scan the owner's ids for a non-empty owner and all ids for an empty one; the meta flag is written exactly when metaOnChain is set; loaders of the blob and the eACL. R6: the id-keyed families are deleted only from Delete (registry and owner index also by the layout migration). R8: arguments of a contract.Call that resolves to a method of this repository stand at the position of the parameter their name is meant for (defaultExpire/defaultTTL). R10: every normal return of SetEACL has stored the submission and announced it. R11: every normal return of a put has emitted PutSuccess (also a repetition that finds its submission stored); emitters are stated per entry point; a write skipped because the stored value is known equal to the value that would be stored counts as done.",
 		NotCovered: "equality of the read API with a reference model over interleavings, NNS-side effects of alias cleanup, parsing of blobs with unusual version-field offsets (value level).",
 		Run:        runC04,
 	})
@@ -29,7 +29,7 @@ func init() {
 		Level:     "other",
 		Technique: "term agreement and must-facts at the fee transfer call site; loop-shape analysis (one call per Alphabet key, no early exit); dominance of the registry write by the loop exit",
 		Explanation: "D1 the amount argument of the transferX call in PutNamed equals Ext(netmap,config,ContainerFee) when name == \"\" and ContainerFee + ContainerAliasFee when name != \"\" (the same predicate controls the alias registration), and is loop-invariant; " +
-			"D2 the call sits in a range loop over the committee keys with no exit other than exhaustion, to = CreateStandardAccount(element), from = the script hash of the owner parsed from the blob, details = 0x10‖id; D3 the registry write is dominated by the loop exit, no exception-catching frame encloses the calls, and balance.TransferX cannot return normally from a refused transfer (C01). D4 every normal return of netmap.SetConfig has stored the submitted value (a fee of 0 included). D5 the debit/credit leg rules of balance's transfer helper (C01) are re-run: payer = payee included. R7: every integer-to-bytes encoder of package deploy returns the output of neo-go's VM integer codec (the contracts read the deployed settings back as VM integers). R10: every normal return of PutNamed that charged the fee has stored the container.",
+			"D2 the call sits in a range loop over the committee keys with no exit other than exhaustion, to = CreateStandardAccount(element), from = the script hash of the owner parsed from the blob, details = 0x10‖id; D3 the registry write is dominated by the loop exit, no exception-catching frame encloses the calls, and balance.TransferX cannot return normally from a refused transfer (C01). D4 every normal return of netmap.SetConfig has stored the submitted value (a fee of 0 included). D5 the debit/credit leg rules of balance's transfer helper (C01) are re-run: payer = payee included. R7: every integer-to-bytes encoder of package deploy returns the output of neo-go's VM integer codec (the contracts read the deployed settings back as VM integers). R10: every normal return of PutNamed that charged the fee has stored the container. R11: an unpayable put faults: the full amount (amount × keys) is established before the fee loop or a refused balance.transferX faults (one of the two, today both).",
 		NotCovered: "numeric exactness at the balance boundary is delegated to C01 (Balance ≥ amount guard) and VM atomicity.",
 		Run:        runC05,
 	})
@@ -168,6 +168,8 @@ func runC04(cx *CheckCtx) {
 			args := notifyArgs(notif)
 			cx.decide(len(args) >= 1 && args[0] == id, "notify", "container.PutNamed/PutSuccess/arg", "names the container id", "PutSuccess names "+termList(args)+" instead of the id", notif.Where(w))
 			checkNotifyEquiv(cx, a, "container.PutNamed/PutSuccess", notif, xPut)
+			// "each successful put emits exactly one PutSuccess": also the put that finds its submission stored already
+			cx.decide(executedAtEveryExit(a, notif), "notify", "container.PutNamed/PutSuccess/always", "every normal return of a put has announced it", "a put can return normally without PutSuccess (a repetition taken for 'already stored' is accepted, charged and not announced)", notif.Where(w))
 		}
 	}
 	// Put and PutMeta delegate to PutNamed with their own blob
@@ -504,11 +506,13 @@ func runC04(cx *CheckCtx) {
 					cx.decide(in, "who-may-delete", skey, "family '"+fam+"' deleted by its owner", "family '"+fam+"' is deleted outside "+strings.Join(own, "/")+": data of a live container (its eACL table, alias, registry or owner entry) can vanish without the container being deleted", s.Where(w))
 				}
 			case notifyName(s) == "PutSuccess":
-				cx.decide(inFrame(s, cnrPkg+".PutNamed") && s.Ctx.fn.Name() == "PutNamed", "single-emitter", skey, "emitted by PutNamed", "PutSuccess is emitted outside PutNamed", s.Where(w))
+				// stated per entry point (the put entry points all run PutNamed, decided above: argument, exactly on
+				// the change, on every return); which function of the put path holds the Notify is not behaviour
+				cx.decide(inFrame(s, cnrPkg+".PutNamed") && (m.GoName == "Put" || m.GoName == "PutNamed" || m.GoName == "PutMeta"), "single-emitter", skey, "emitted on the put path", "PutSuccess is emitted by "+m.GoName+" outside the put path", s.Where(w))
 			case notifyName(s) == "DeleteSuccess":
-				cx.decide(s.Ctx.fn.Name() == "Delete", "single-emitter", skey, "emitted by Delete", "DeleteSuccess is emitted outside Delete", s.Where(w))
+				cx.decide(m.GoName == "Delete" || m.GoName == "Remove", "single-emitter", skey, "emitted on the delete path", "DeleteSuccess is emitted by "+m.GoName+", not by the delete entry points", s.Where(w))
 			case notifyName(s) == "SetEACLSuccess":
-				cx.decide(s.Ctx.fn.Name() == "SetEACL", "single-emitter", skey, "emitted by SetEACL", "SetEACLSuccess is emitted outside SetEACL", s.Where(w))
+				cx.decide(m.GoName == "SetEACL", "single-emitter", skey, "emitted on the setEACL path", "SetEACLSuccess is emitted by "+m.GoName+", not by SetEACL", s.Where(w))
 			}
 			// writes of id-keyed families outside their owners
 			if s.Effect == "put" {
@@ -582,6 +586,35 @@ func notTombstoneKey(a *Analysis, s *Site) (bool, string) {
 	return false, ""
 }
 
+// identicalStored: the literals "the value read from the put's key equals the value the put would store"
+// known to the analysis (a re-submission that is byte-identical to what is stored may skip the write: the
+// store would change nothing).
+func identicalStored(a *Analysis, put *Site) []int32 {
+	var out []int32
+	if put == nil || len(put.Args) < 3 {
+		return out
+	}
+	strip := func(t *Term) *Term {
+		for t != nil && (t.Op == "tobytes" || t.Op == "conv" || t.Op == "tostring") && len(t.Args) == 1 {
+			t = t.Args[0]
+		}
+		return t
+	}
+	val := strip(put.Args[2])
+	for i, l := range a.lt.lits {
+		if l.Kind != KEq || l.A == nil || l.B == nil {
+			continue
+		}
+		x, y := strip(l.A), strip(l.B)
+		for _, pr := range [][2]*Term{{x, y}, {y, x}} {
+			if pr[0].Op == "read" && len(pr[0].Args) > 0 && pr[0].Args[0] == put.Args[1] && pr[1] == val {
+				out = append(out, int32(i))
+			}
+		}
+	}
+	return out
+}
+
 // checkNotifyEquiv: the notification is emitted exactly on the paths that
 // perform the state change, at one site outside loops.
 func checkNotifyEquiv(cx *CheckCtx, a *Analysis, key string, notif, change *Site) {
@@ -591,7 +624,7 @@ func checkNotifyEquiv(cx *CheckCtx, a *Analysis, key string, notif, change *Site
 		if !a.holdsAt(ex.State, -a.eLit(change), a.eLit(notif)) {
 			ok1 = false
 		}
-		if !a.holdsAt(ex.State, -a.eLit(notif), a.eLit(change)) {
+		if !a.holdsAt(ex.State, append([]int32{-a.eLit(notif), a.eLit(change)}, identicalStored(a, change)...)...) {
 			ok2 = false
 		}
 	}
@@ -703,9 +736,25 @@ func runC05(cx *CheckCtx) {
 				}
 			}
 			if bal != nil {
-				total := tb.binop(token.MUL, amt, tb.mk("len", "", 0, to.Args[0].Args[0]), intType)
-				nb, okBal := panicOnlyIf(a, m.Fn, bal, a.orderAxioms([2]*Term{bal, total}), a.litLt(bal, total))
-				cx.decide(nb > 0 && okBal, "fee-atomic", "container.PutNamed/sufficient", "refused for the balance only when balance < amount × number of Alphabet keys", "a put can be refused for 'insufficient balance' although the owner's balance covers amount × number of Alphabet keys (the boundary is off, or the product is taken over something else): an owner holding exactly the fee cannot register", fee.Where(w))
+				lenKeys := tb.mk("len", "", 0, to.Args[0].Args[0])
+				total := tb.binop(token.MUL, amt, lenKeys, intType)
+				ax := a.orderAxioms([2]*Term{bal, total})
+				// the converse speaks about the test of the *full* amount: a fault decided on the balance and on a
+				// product with the number of keys. A coarser pre-check (balance against the per-node fee only) is
+				// no boundary test — with it, atomicity rests on the Balance contract faulting (below).
+				nb, okBal := panicOnlyIfCond(a, m.Fn, func(ct *Term) bool {
+					return ct.contains(func(x *Term) bool { return x == bal }) && ct.contains(func(x *Term) bool { return x == lenKeys })
+				}, ax, a.litLt(bal, total))
+				if nb > 0 {
+					cx.decide(okBal, "fee-atomic", "container.PutNamed/sufficient", "refused for the balance only when balance < amount × number of Alphabet keys", "a put can be refused for 'insufficient balance' although the owner's balance covers amount × number of Alphabet keys (the boundary is off, or the product is taken over something else): an owner holding exactly the fee cannot register", fee.Where(w))
+				}
+				// "if the owner cannot pay the full amount the invocation fails and nothing changes": either the
+				// transfers are reached only with balance ≥ amount × keys established, or a refused transfer faults
+				// inside the Balance contract (transferX never returns normally from a refusal). One of the two
+				// must hold; today both do.
+				preEstablished := a.entails(fee.In, ax, -a.litLt(bal, total))
+				calleeFaults := transferXRefusalFaults(cx)
+				cx.decide(preEstablished || calleeFaults, "fee-atomic", "container.PutNamed/refusal-faults", fmt.Sprintf("an unpayable put faults (balance ≥ amount × keys established before the loop: %v; a refused transferX faults in Balance: %v)", preEstablished, calleeFaults), "an owner who cannot pay every Alphabet node can still register: the put does not establish balance ≥ amount × number of keys before paying, and balance.transferX returns normally from a refused transfer — some nodes are paid, the rest skipped, the container stored", fee.Where(w))
 			}
 		}
 		cx.decide(okTo, "fee-loop", "container.PutNamed/receiver", "to = standard account of each committee key", "the fee receiver is "+to.pretty()+", not the account of each Alphabet key", fee.Where(w))
@@ -738,7 +787,7 @@ func runC05(cx *CheckCtx) {
 		// submission (blob with its signature, key and token) on every normal return
 		okStored := true
 		for _, ex := range a.Exits() {
-			if !a.holdsAt(ex.State, -a.eLit(fee), a.eLit(xPut)) {
+			if !a.holdsAt(ex.State, append([]int32{-a.eLit(fee), a.eLit(xPut)}, identicalStored(a, xPut)...)...) {
 				okStored = false
 			}
 		}
